@@ -11,7 +11,7 @@ from ..rules.common import _bindings
 LEVEL = 'other'
 TECHNIQUE = ('static: ownership/linearity analysis of the refill loop (every drawn task is submitted and registered, a future '
              'leaves the pending map only by pop() and every pop is followed by exactly one yield of its result - path-state '
-             'execution), who-may-mutate rule on the pending map, same-worker rule for the sequential paths, handler-order rule')
+             'execution), who-may-mutate rule on the pending map, same-worker rule for the sequential paths, handler-order rule, re-raise/capture/retry rule for handlers around the user function')
 LEVEL_TEXT = ('Decides the shape of the loop, for all paths: each task drawn from the task iterator is handed to ex.submit and its '
               'future becomes a key of the pending map; the pending map is only iterated through the snapshot as_completed() takes '
               'and is the condition of the outer loop, so futures added during a pass are revisited; a future leaves the map only '
